@@ -76,6 +76,11 @@ CHECKS = {
          "Random search over macro rules (textual {param} substitution with expression arguments, block-local labels, forward global labels, sub-rule operands, nesting to 3) and over #fn definitions; the macro program must assemble to the bits of the inlined program whenever the latter assembles; calls must equal substituted bodies and the reference value; recursion at depth <= 10 must succeed and at depth >= 100 must be an error (a dying worker is a violation). Exploration.",
          "Base instruction sets for the macro part are size-static and carry no assert constraints (an assert on a forward label inside a block is a listed known finding with a directed probe); nothing is asserted when the hand-inlined program is itself rejected.",
          "6/C17"),
+ "C19": ("fault_enumeration",
+         "directed magnitude families run through the real binary in its own process under CPU / address-space / stack limits, with an outcome oracle (exit 0, or exit 1 with an error diagnostic; any signal, panic exit, CPU-limit or allocation abort is a violation)",
+         "Complete enumeration of 44 directed families x their magnitude lists (nesting 1..10^5, numeric 2^k-1/2^k/2^k+1 for k up to 65, plus 8*10^8, 6.4*10^9, -1, 0) against the real binary built with overflow checks (thorough: also the stock release build). Decides crash / hang / abort versus diagnosis for every listed (family, magnitude); nothing is claimed beyond the listed families.",
+         "RLIMIT_CPU 10 s (30 s thorough), RLIMIT_AS 4 GiB, default 8 MiB stack; magnitudes 2^17..2^30 for bit-by-bit constructs are legitimately slow and not listed; stack overflows of very long operator chains, #if nesting and #elif chains are listed known findings.",
+         "6/C19"),
  "C18": ("exploration",
          "model-based property testing of command lines: the option grammar and format table are parsed from src/usage_help.md at run time; the driver's accept/reject decision, written files and their contents are compared with the model; a sample goes through the real binary",
          "Random search over command lines (1-4 groups, every documented format and parameter, invalid near-misses, option spellings, global options anywhere, awkward input names) on four small programs. Decides accept/reject-before-assembling, the list of files, per-group content (defaults and aliases as documented), -p, -q, -t plumbing, -h/-v. Exploration.",
